@@ -89,6 +89,72 @@ Theorem tail_keeps_inv r txon c m0 kind mr r0 next evs :
   Inv c (fw (trun r txon c (finit m0 kind mr r0 next) evs)).
 Proof. intros Snd A S. apply FI_inv. apply trun_inv; [exact Snd | exact S | apply finit_inv; exact A]. Qed.
 
+(* ---- what the three theorems above add to Fault.v, said plainly: under tail_safe an enabled TEscape IS Fault.v's EAbort
+   (the exception leaves the call, the lock is released on the way out, nothing is deleted).  All of their content beyond
+   no_damage / uncommitted_unreachable / faults_keep_inv is the hypothesis tail_safe, decided on the regenerated tails below. *)
+Lemma safe_escape_is_abort r txon c x a e last x' :
+  tail_safe txon r = true -> tstep r txon c x (TEscape a e last) = Some x' ->
+  x' = fstep_skip c x (FProto {| e_actor := a; e_kind := EAbort |}).
+Proof.
+  intros S H. unfold tstep in H.
+  destruct (in_tail (a_pc (w_actors (fw x) a)) && tail_escapes r e) eqn:En; [|discriminate].
+  apply andb_true_iff in En. destruct En as [_ Esc].
+  rewrite (tail_safe_keeps txon r e last S Esc) in H. unfold fstep_skip.
+  destruct (fstep c x (FProto {| e_actor := a; e_kind := EAbort |})); inversion H; reflexivity.
+Qed.
+
+(* ---- C04_clean_pre: the deleting rollback -- what Transaction.commit does about an exception it takes for a storage error
+   that happened BEFORE the commit point, and reports as such -- has only ever been run by transactions whose operation is
+   not part of the table (pre-state), in every run of the tail machine.  f_dead is the ghost "has run _rollback(delete_files=
+   True)".  Before the flip this is the guard of Fault.v's FRollback (checked against the code by the strict run of the
+   correspondence); after the flip it is tail_safe: no class the deleting arm handles can leave the tail. *)
+Theorem clean_raise_pre r txon c m0 kind mr r0 next evs :
+  sound c -> (forall f, In f r0 -> (f < next)%nat) -> tail_safe txon r = true ->
+  let x := trun r txon c (finit m0 kind mr r0 next) evs in
+  forall a, f_dead x a = true -> flipped (pcof x a) = false /\ ~ In a (map snd (w_hist (fw x))).
+Proof.
+  intros Snd A S x a D.
+  assert (I : FInv c x) by (apply trun_inv; [exact Snd | exact S | apply finit_inv; exact A]).
+  pose proof (can_rollback_not_flipped _ (FI_dead c x I a D)) as NF. split; [exact NF|].
+  intro H. apply (AI_flip _ _ _ _ _ _ (I_actor c (fw x) (FI_inv c x I) a)) in H. unfold pcof in NF. congruence.
+Qed.
+
+(* ... and on the regenerated tables: (1) a failing commit-point write is reported as a plain storage error only where a
+   write that raises is guaranteed not to have happened (no conditional writes, atomic_write_failures); (2) no Exception
+   leaves any regenerated tail (so no storage error is reported by a call whose pointer write has landed). *)
+Lemma clean_raise_regenerated :
+  (forall casb atomic, gen_flip_exn casb atomic FEError = XOther -> casb = false /\ atomic = true)
+  /\ unguarded gen_tail_file_ops = false /\ unguarded gen_tail_meta_only = false /\ unguarded gen_tail_delete_snapshot = false.
+Proof.
+  split; [|repeat split; reflexivity].
+  intros [] []; simpl; intro H; try discriminate H; split; reflexivity.
+Qed.
+
+(* ---- C04_ambiguous: where the outcome of the pointer write is unknowable (a conditional-write store, or a store whose
+   failed writes may have been applied) every failure of that write other than the store's own refusal is reported as
+   AMBIGUOUS; the arm that handles it keeps the transaction's files and the metadata file on every attempt; and in the
+   machine an ambiguous error leaving a commit call deletes nothing, whatever the tail. *)
+Lemma ambiguous_step_keeps r c x a last x' :
+  tstep r gen_tx_on c x (TEscape a XAmbiguous last) = Some x' ->
+  f_present x' = f_present x /\ f_written x' = f_written x /\ f_dead x' = f_dead x.
+Proof.
+  unfold tstep. destruct (in_tail (a_pc (w_actors (fw x) a)) && tail_escapes r XAmbiguous); [|discriminate].
+  replace (gen_tx_on XAmbiguous last) with TxRollbackKeep by (destruct last; reflexivity).
+  destruct (fstep c x (FProto {| e_actor := a; e_kind := EAbort |})) as [x1|] eqn:St; intro H; inversion H; subst x'; clear H.
+  - unfold fstep in St. destruct (step c (fw x) {| e_actor := a; e_kind := EAbort |}); inversion St. repeat split; reflexivity.
+  - repeat split; reflexivity.
+Qed.
+
+Theorem ambiguous_keeps :
+  (forall casb atomic, (casb = true \/ atomic = false) -> gen_flip_exn casb atomic FEError = XAmbiguous)
+  /\ (forall last, gen_tx_on XAmbiguous last = TxRollbackKeep) /\ gen_discard_on XAmbiguous = false
+  /\ (forall r c x a last x', tstep r gen_tx_on c x (TEscape a XAmbiguous last) = Some x' ->
+       f_present x' = f_present x /\ f_written x' = f_written x /\ f_dead x' = f_dead x).
+Proof.
+  split; [intros [] [] [H|H]; try discriminate H; reflexivity|].
+  split; [intros []; reflexivity|]. split; [reflexivity|]. exact ambiguous_step_keeps.
+Qed.
+
 (* ---- the regenerated tails are safe for the regenerated handler table *)
 Lemma gen_tails_safe :
   tail_safe gen_tx_on gen_tail_file_ops = true /\ tail_safe gen_tx_on gen_tail_meta_only = true
